@@ -28,6 +28,9 @@ func (fx *FnExec) extern(st *State, in *ssa.Call, fn *ssa.Function, args []Val, 
 	eng := fx.eng
 	name := fn.String()
 	strT := types.Typ[types.String]
+	if fx.externProc(st, in, fn, args, k) {
+		return
+	}
 	switch name {
 	case "crypto/rand.Read":
 		fx.trust("extern crypto/rand.Read(b): err==nil => b[i]==tape[pos+i] for i<len(b), pos advances by len(b), n==len(b); err!=nil iff rngfail(pos); modifies only b's elements (io.ReadFull semantics; reads the OS CSPRNG = the ghost tape, A-RNG)")
@@ -254,6 +257,10 @@ type DynType struct{ T types.Type }
 func (eng *Engine) immutableGlobal(fx *FnExec, st *State, g *ssa.Global) (Val, bool) {
 	tv, ok := g.Object().(*types.Var)
 	if !ok {
+		return Val{}, false
+	}
+	if eng.pkgContract[tv.Pkg().Name()] != nil {
+		// the package's contracts describe its package state by invariants proved for init
 		return Val{}, false
 	}
 	if eng.globalWritten(g) || tv.Exported() {
